@@ -23,7 +23,8 @@ UN = {
     'polarity': lambda a: a.polarity(), 'unpolarity': lambda a: a.unpolarity(),
     'normsq': lambda a: a.normsq(), 'inv': lambda a: a.inv(),
     'outerexp': lambda a: a.outerexp(), 'outersin': lambda a: a.outersin(), 'outercos': lambda a: a.outercos(),
-    'outertan': lambda a: a.outertan(),
+    'outertan': lambda a: a.outertan(), 'sqrt': lambda a: a.sqrt(), 'norm': lambda a: a.norm(), 'normalized': lambda a: a.normalized(),
+    'exp': lambda a: a.exp(),
 }
 
 
